@@ -4,8 +4,10 @@ package peering
 
 import (
 	"net"
+	"sync"
 
 	"github.com/mycoria/mycoria/m"
+	"github.com/mycoria/mycoria/mgr"
 	"github.com/mycoria/mycoria/state"
 )
 
@@ -26,6 +28,26 @@ func (p *Peering) VerifSetupLink(conn net.Conn, peeringURL *m.PeeringURL, outgoi
 func VerifLinkEncSession(l Link) *state.EncryptionSession {
 	if lb, ok := l.(*LinkBase); ok {
 		return lb.encSession
+	}
+	return nil
+}
+
+// VerifAcceptLink runs the link setup of an accepted connection exactly the
+// way the listener does - a new incoming LinkBase whose setupWorker is started
+// as a worker of the module manager - waits for the first run of that worker
+// to end and returns the link if it got registered (nil otherwise).
+// Verification hook: only compiled with the "verif" build tag.
+func (p *Peering) VerifAcceptLink(conn net.Conn, peeringURL *m.PeeringURL) Link {
+	newLink := newLinkBase(conn, peeringURL, false, p)
+	done := make(chan struct{})
+	var once sync.Once
+	p.mgr.Go("setup link", func(w *mgr.WorkerCtx) error {
+		defer once.Do(func() { close(done) })
+		return newLink.setupWorker(w)
+	})
+	<-done
+	if newLink.peer.IsValid() && p.GetLink(newLink.peer) == Link(newLink) {
+		return newLink
 	}
 	return nil
 }
